@@ -22,6 +22,7 @@ type AOp struct {
 type AScenario struct {
 	Count    int    `json:"count"`
 	RateUs   int    `json:"rate_us"`
+	RateNs   int    `json:"rate_ns,omitempty"` // when > 0: overrides RateUs (very small rates)
 	Pre      bool   `json:"pre"`
 	Receiver []AOp  `json:"receiver"`
 	Cancel   []AOp  `json:"cancel"`
@@ -29,7 +30,18 @@ type AScenario struct {
 }
 
 func genAttemptScenario(rng *rand.Rand, profile, mode string) any {
+	if profile == "ts" {
+		// timestamps: a prompt receiver draining the whole channel, at very small rates
+		sc := &AScenario{Profile: profile, Count: 2 + rng.Intn(4), RateNs: []int{1, 10, 100, 1000, 10000}[rng.Intn(5)]}
+		for i := 0; i <= sc.Count; i++ {
+			sc.Receiver = append(sc.Receiver, AOp{K: "recv"})
+		}
+		return sc
+	}
 	sc := &AScenario{Profile: profile, Count: 1 + rng.Intn(4), RateUs: []int{100, 200, 400}[rng.Intn(3)], Pre: rng.Intn(8) == 0}
+	if rng.Intn(5) == 0 {
+		sc.RateNs = []int{1, 100, 10000}[rng.Intn(3)]
+	}
 	nrecv := rng.Intn(sc.Count + 3) // absent (0), partial, full, or more than count
 	for i := 0; i < nrecv; i++ {
 		if rng.Intn(2) == 0 {
@@ -85,7 +97,11 @@ func runAttemptExec(execID int, sci any, e *Env) []rec.Ev {
 	}
 	e.Spawn("S", func(g string) {
 		ctl.Gate("drv.call")
-		p := safeCall(func() { ch = bigbuff.LinearAttempt(ctx, time.Duration(sc.RateUs)*time.Microsecond, sc.Count) })
+		rate := time.Duration(sc.RateUs) * time.Microsecond
+		if sc.RateNs > 0 {
+			rate = time.Duration(sc.RateNs)
+		}
+		p := safeCall(func() { ch = bigbuff.LinearAttempt(ctx, rate, sc.Count) })
 		buffered := -1
 		if ch != nil {
 			buffered = len(ch)
